@@ -231,7 +231,7 @@ def gen_hsic_expl(rng, tier):
 
 def generate(rng, tier):
     scale = 1 if tier == "quick" else 10
-    plan = [(gen_est, 45), (gen_design, 25), (gen_hsic_est, 18), (gen_sobol_expl, 24), (gen_hsic_expl, 14), (gen_jansen_ill, 12)]
+    plan = [(gen_est, 45), (gen_design, 25), (gen_hsic_est, 18), (gen_sobol_expl, 24), (gen_hsic_expl, 14), (gen_jansen_ill, 40)]
     cases = []
     for f, k in plan:
         cases += [f(rng, tier) for _ in range(k * scale)]
@@ -252,10 +252,12 @@ def gen_jansen_ill(rng, tier):
     # affine rescalings a*y + b with a > 0 under which the index must not move (a tiny spread on top of a large offset
     # would simply vanish in float32: constant outputs, excluded by the property)
     if rng.random() < 0.6:
-        offset, scale = rng.choice([2.0 ** 10, 2.0 ** 14, 2.0 ** 18]), rng.choice([1.0, 0.5, 2.0])
+        offset, scale = rng.choice([2.0 ** 10, 2.0 ** 14, 2.0 ** 18, 2.0 ** 18, 2.0 ** 22]), rng.choice([1.0, 0.5, 2.0])
     else:
         offset, scale = 0.0, rng.choice([2.0 ** -10, 2.0 ** -12, 2.0 ** -8])
-    return dict(kind="jansen_ill", d=d, n=n, ya=ya, yb=yb, yc=yc, inert=inert, offset=offset, scale=scale, f32=rng.random() < 0.5)
+    # (float32 outputs at offset 2^22 would be quantised to multiples of 1/2: double precision only there)
+    return dict(kind="jansen_ill", d=d, n=n, ya=ya, yb=yb, yc=yc, inert=inert, offset=offset, scale=scale,
+                f32=rng.random() < 0.5 and offset < 2.0 ** 20)
 
 
 def run_jansen_ill(case):
